@@ -80,7 +80,8 @@ func cachedAny(key string, mk func() interface{}) func() interface{} {
 
 // writeEntry creates directory entry number i of the given kind and returns the certificates it holds.
 func writeEntry(storeDir string, i int, kind string, pki *tsPKI, outside string) []*x509.Certificate {
-	fn := filepath.Join(storeDir, fmt.Sprintf("entry%d-%s.crt", i, kind))
+	// the entry's name is of no consequence: hidden (leading dot), with a blank, with another or no extension
+	fn := filepath.Join(storeDir, fmt.Sprintf([]string{"entry%d-%s.crt", ".entry%d-%s.crt", "Entry %d %s.PEM", "entry%d-%s", ".%d%s~"}[(i+len(kind))%5], i, kind))
 	switch kind {
 	case "pemCA":
 		c := []*x509.Certificate{pki.rootA.Certs[0]}
